@@ -8,6 +8,10 @@ macro_rules! cfg {
 }
 
 fn main() {
+    vengine::on_worker_stack(real_main);
+}
+
+fn real_main() {
     let mut run = Run::from_args("C11", "c11");
     vcore::core_configs!(cfg, &mut run);
     // the widest configurations of the quantifier (8192 bits), small plan
